@@ -341,6 +341,26 @@ def guard(ctx, inst, body, s_nodes, edges, what, require_edges=True):
     unmark = set()
     for (sw, _) in edges:
         unmark |= A.root_invalidators(body, A.switch_info(body, sw).root)
+    # a borrow taken only to make the guarded call itself is not a reassignment of the tested value
+    for s in s_nodes:
+        n = body.nodes[s]
+        if n.kind != "call":
+            continue
+        work = [op_local(a) for a in n.ev["args"]]
+        for _ in range(3):
+            nxt = []
+            for l in work:
+                if l is None:
+                    continue
+                for d in body.defs.get(l, []):
+                    dn = body.nodes[d]
+                    if dn.kind == "assign" and dn.ev.get("rv") in ("ref", "rawptr", "use"):
+                        unmark.discard(d)
+                        if dn.ev.get("rv") == "use":
+                            nxt.append(op_local(dn.ev["a"]))
+                        else:
+                            nxt.append(dn.ev["pl"]["l"] if dn.ev["pl"]["p"] else None)
+            work = nxt
     ps = A.PathSearch(body)
     ps.run([body.entry], mark_edges=frozenset(edges), unmark_nodes=frozenset(unmark))
     ok_all = True
@@ -372,7 +392,8 @@ def noerr_after(ctx, inst, body, s_nodes, what, allowed=()):
         bad = []
         for e in errs:
             if e in r:
-                srcs = A.error_sources(body, e)
+                srcs = [x for x in A.error_sources(body, e)
+                        if not any(path_matches(x[1], w) for w in ("Result::map_err", "Option::ok_or", "Option::ok_or_else", "Result::map"))]
                 if srcs and all(any(path_matches(nm, al) for al in allowed) for (_, nm) in srcs):
                     continue
                 bad.append(e)
